@@ -205,7 +205,7 @@ def solve_sat(
             if not in_heap[var]:
                 heappush(var_heap, (-activity[var], var))
                 in_heap[var] = True
-        prop_head = len(trail)
+        prop_head = min(prop_head, len(trail))
         if _verif.ENABLED:  # pragma: no cover
             _verif.emit("backtrack", to=level, trail=[v if vals[v] == 1 else -v for v in trail])
 
